@@ -82,21 +82,29 @@ func widen(all map[string]bool, failing map[string]string) map[string]string {
 		clause := failing[id]
 		cur := append([]string{}, sh...)
 		for p := range cur {
-			cand := append([]string{}, cur...)
-			cand[p] = "*"
-			ok, n := true, 0
-			for _, e := range byFM[fm] {
-				if !matches(cand, e) {
+			// first "*" (every enumerated class of the parameter), then "given" (every class but omitted)
+			for _, wild := range []string{"*", "given"} {
+				if cur[p] == "omitted" && wild == "given" {
 					continue
 				}
-				n++
-				if failing[cellID2(fm, e)] != clause {
-					ok = false
+				cand := append([]string{}, cur...)
+				cand[p] = wild
+				ok := true
+				vals := map[string]bool{}
+				for _, e := range byFM[fm] {
+					if !matches(cand, e) {
+						continue
+					}
+					vals[e[p]] = true
+					if failing[cellID2(fm, e)] != clause {
+						ok = false
+						break
+					}
+				}
+				if ok && len(vals) > 1 {
+					cur = cand
 					break
 				}
-			}
-			if ok && n > 1 {
-				cur = cand
 			}
 		}
 		keys[id] = renderKey(fm, cur, clause)
@@ -116,9 +124,10 @@ func matches(pattern, shape []string) bool {
 		return false
 	}
 	for i := range pattern {
-		if pattern[i] != "*" && pattern[i] != shape[i] {
-			return false
+		if pattern[i] == "*" || pattern[i] == shape[i] || (pattern[i] == "given" && shape[i] != "omitted") {
+			continue
 		}
+		return false
 	}
 	return true
 }
